@@ -541,3 +541,46 @@ End Table.
 (* exactly one write per query on every listener kind, for a handled query and for a refused one *)
 Theorem respond_one l q r : length (respond l q r) = 1. Proof. reflexivity. Qed.
 Theorem refuse_one l q : length (refuse l q) = 1. Proof. reflexivity. Qed.
+
+(* ====================== listener size limits (C09) ====================== *)
+Lemma client_udp_size_ge m : (512 <= client_udp_size m)%N.
+Proof. unfold client_udp_size. destruct (_ <? 512)%N eqn:E; [lia|apply N.ltb_ge in E; exact E]. Qed.
+
+Lemma client_udp_size_no_opt m : has_opt m = false -> client_udp_size m = 512%N.
+Proof.
+  unfold client_udp_size, has_opt. intros H.
+  assert (forall acc, fold_left (fun a r => if is_opt r then r_class r else a) (m_ar m) acc = acc) as ->.
+  { induction (m_ar m) as [|r rs IH]; intros acc; [reflexivity|]. cbn in H. apply orb_false_iff in H. destruct H as [H1 H2].
+    cbn [fold_left]. rewrite H1. now apply IH. }
+  reflexivity.
+Qed.
+
+Lemma eff_size_ge size : 512 <= size -> eff_size size = size.
+Proof. unfold eff_size. intros H. destruct (Nat.ltb_spec size 512); lia. Qed.
+
+(* the bytes written for a well-formed response respect the listener's limit: max(512, advertised size) on UDP,
+   65535 octets of DNS message on the framed transports and DoH *)
+Theorem respond_size l q r : wf_msg r -> opt_len r + 12 <= 512 ->
+  exists b, respond l q r = [b] /\
+            match l with
+            | LUdp => length b <= N.to_nat (client_udp_size q)
+            | LHttp => length b <= max_size
+            | LTcp => exists body, b = be16n (length body) ++ body /\ length body <= max_size
+            end.
+Proof.
+  intros Hw Hopt. unfold respond, must_have_resp.
+  pose proof (client_udp_size_ge q) as Hge.
+  assert (Hms : max_size = N.to_nat 65535) by reflexivity.
+  set (tcp := match l with LTcp => true | _ => false end).
+  set (size' := if tcp then max_size else Nat.min (size_limit l q) max_size).
+  assert (512 <= size') as Hs.
+  { unfold size', tcp, size_limit. destruct l; rewrite ?Hms; lia. }
+  destruct (pack_msg_total (msg_len r) true size' r Hw (le_n _)) as [b Hb]. rewrite Hb.
+  assert (length b <= size') as Hlen.
+  { rewrite <- (eff_size_ge size' Hs). eapply pack_msg_size_bound; eauto; [lia|]. rewrite eff_size_ge by exact Hs. lia. }
+  eexists. split; [reflexivity|].
+  unfold size', tcp, size_limit in *. destruct l.
+  - rewrite Hms in *. lia.
+  - exists b. split; [reflexivity|exact Hlen].
+  - rewrite Hms in *. lia.
+Qed.
